@@ -77,6 +77,10 @@ fn cookie(s: &Spec, now: u64) -> (Option<Vec<u8>>, Option<bool>) {
             other.push(b'x');
             (Some(sign(&body(now - 5, CLIENT), &other)), Some(false))
         }
+        "part-of-secret" => {
+            // s.text = hex of the key the forger uses: a piece of the configured secret
+            (Some(sign(&body(now - 5, CLIENT), &common::unhex(&s.text))), Some(common::unhex(&s.text) == sec))
+        }
         "ip" => {
             let same_ip = s.text.rsplit_once(':').map(|(ip, _)| ip) == CLIENT.rsplit_once(':').map(|(ip, _)| ip);
             (Some(sign(&body(now - 5, &s.text), &sec)), Some(same_ip))
@@ -278,6 +282,20 @@ fn specs(cookie_len: usize, thorough: bool) -> Vec<Spec> {
     for (expiry, stall) in [(60u64, 2_100i64), (1, 2_100), (21_600, 2_100)] {
         v.push(sp(3, Some(k), "age-stall", stall, expiry, ""));
     }
+    // secrets with structure (lines, separators, padding): only the whole secret is the key - not one of its
+    // lines or fields, not its trimmed form, not a prefix or suffix, not the empty key
+    for sec in ["ab12\ncd34", "ab12cd34\n", "\nab12cd34", "ab12\r\ncd34", "ab12 cd34", "ab12,cd34", "ab12;cd34", "ab12\0cd34", " ab12cd34 ", "ab12\n\ncd34"] {
+        let h = common::hex(sec.as_bytes());
+        let mut keys: Vec<Vec<u8>> = vec![vec![], sec.trim().as_bytes().to_vec(), sec.as_bytes()[..sec.len() / 2].to_vec(), sec.as_bytes()[sec.len() / 2..].to_vec(), sec.as_bytes().to_vec()];
+        for piece in sec.split(['\n', '\r', ' ', ',', ';', '\0']) {
+            keys.push(piece.as_bytes().to_vec());
+        }
+        keys.sort();
+        keys.dedup();
+        for key in keys {
+            v.push(sp(3, Some(&h), "part-of-secret", 0, 21_600, &common::hex(&key)));
+        }
+    }
     // the router's own cookie, presented at once and after it has expired (real time)
     for (expiry, stall) in [(21_600u64, 0i64), (1, 0), (1, 2_100), (0, 1_100)] {
         v.push(sp(3, Some(k), "issued", stall, expiry, ""));
@@ -371,7 +389,7 @@ pub fn run(cli: Cli) -> ! {
     rep.set("clock_retries", json!(retries.load(Ordering::Relaxed)));
     rep.set("cookie_length_bytes", json!(sample_cookie.len()));
     rep.set("exhaustive", json!(true));
-    rep.set("rule", json!("one connection per cookie variant: every truncation length, every single-bit flip of tag and body (thorough: also every pair of tag bits), other secret, 6 addresses, ages {0, e-2, e-1, e, e+1, e+2, e+10^6, -1} x expiry {0,1,60,21600}, 10 signed bodies that are not a cookie, 5 secret length classes, intent x secret combinations without a cookie branch; 12 cookie situations x authentication latency {4 s, 8 s, 40 s} x service verdict {vouches, refuses}; 3 cookies that are valid when the connection starts and expired (2.1 s of real time later) when presented; 4 histories in which the cookie is the one the router itself issued on a first connection, presented at once and after its expiry has passed in real time. Every spec is distinct."));
+    rep.set("rule", json!("one connection per cookie variant: every truncation length, every single-bit flip of tag and body (thorough: also every pair of tag bits), other secret, 6 addresses, ages {0, e-2, e-1, e, e+1, e+2, e+10^6, -1} x expiry {0,1,60,21600}, 10 signed bodies that are not a cookie, 5 secret length classes, 10 structured secrets (lines, separators, padding) x cookies signed with each piece, prefix, suffix, trimmed form and the empty key, intent x secret combinations without a cookie branch; 12 cookie situations x authentication latency {4 s, 8 s, 40 s} x service verdict {vouches, refuses}; 3 cookies that are valid when the connection starts and expired (2.1 s of real time later) when presented; 4 histories in which the cookie is the one the router itself issued on a first connection, presented at once and after its expiry has passed in real time. Every spec is distinct."));
     rep.sample(json!({"spec": all[0]}));
     rep.sample(json!({"spec": sp(3, Some("6b"), "age", 60, 60, ""), "expect": "accepted (age == expiry) if the wall-clock second does not tick during the run, else repeated"}));
     rep.sample(json!({"spec": sp(3, Some("6b"), "bitflip", 255, 21600, ""), "expect": "must authenticate"}));
